@@ -53,6 +53,7 @@ CONSTANTS
   MaxTime = %(maxtime)d
   MaxOps = %(maxops)d
   Hyp = %(hyp)s
+  KeepHist = %(keephist)s
 %(tail)s
 """
 
@@ -95,6 +96,8 @@ MC = dict(
     regvars=["ok", "noep", "ltnan"], updvars=["ok", "ep", "body"], putvars=["ok", "nocf"],
     adv=[1], maxtime=11,
 )
+# thorough tier, 4 requests: the request forms that fail before anything could change are left to the 3-request run
+MC4 = dict(MC, maxtime=9, regvars=["ok", "ltnan"], updvars=["ok", "body"], putvars=["ok"])
 # simulation: more of everything, every request form
 SIM = dict(
     srcs=[1, 2], eps=["e1", "e2", "e3"], ds=["", "s1", "s2"],
@@ -119,7 +122,7 @@ def write_cfg(wd, name, c, maxops, hyp, tail):
             grace=GRACE_Q, deflt=DEFAULT_LT_Q, srcs=tla_set(c["srcs"]), eps=tla_set(c["eps"]), ds=tla_set(c["ds"]),
             regvars=tla_set(sorted(set(c["regvars"]))), updvars=tla_set(sorted(set(c["updvars"]))),
             putvars=tla_set(sorted(set(c["putvars"]))), adv=tla_set(c["adv"]), maxtime=c["maxtime"],
-            maxops=maxops, hyp=hyp, tail=tail,
+            maxops=maxops, hyp=hyp, tail=tail, keephist="FALSE" if tail is MC_TAIL else "TRUE",
         ),
     )
 
@@ -131,12 +134,34 @@ def hist_to_history(hist):
     """TLC value of the model's `hist' -> replayable history (plus the model's
     predicted response class / location per request)."""
     steps = []
-    for h in hist:
-        steps.append({k: h[k] for k in STEP_KEYS})
+    at = {}  # model location -> id of the registration step that holds it
+    for i, h in enumerate(hist):
+        st = {k: h[k] for k in STEP_KEYS}
+        st["id"] = i
+        if st["k"] == "reg" and st["cls"] == 2:
+            at[st["loc"]] = i
+        elif st["k"] in ("upd", "put", "del"):
+            # the location is meant as "the one that registration got", whatever its name
+            st["ref"] = at.get(st["loc"])
+            if st["ref"] is None:
+                del st["ref"]
+        steps.append(st)
     return {"steps": steps}
 
 
+def _dbg(msg, _t=[None]):
+    import sys, time
+
+    if os.environ.get("VERIF_DEBUG"):
+        now = time.time()
+        print("[c20 +%.1fs] %s" % (0 if _t[0] is None else now - _t[0], msg), file=sys.stderr, flush=True)
+        _t[0] = now
+
+
 def _run(h):
+    import warnings
+
+    warnings.simplefilter("ignore")
     from harness.rddrive import run_history
 
     try:
@@ -207,29 +232,75 @@ def retime(steps):
     return out
 
 
-def minimise(wd, pool, history, clause, max_rounds=40):
-    """Greedy one-step-removal shrinking; each round all candidates are run on
-    the real code and judged by TLC in one batch.  The result still violates
-    `clause' on the real code."""
-    cur = history
-    for _ in range(max_rounds):
-        cands = []
-        for i in range(len(cur["steps"])):
-            steps = retime(cur["steps"][:i] + cur["steps"][i + 1 :])
-            if steps and len(steps) < len(cur["steps"]):
-                cands.append({"steps": steps})
-        # also try collapsing every clock step to the smallest one that keeps order
+def _ops_subsets(n, kmax):
+    from itertools import combinations
+
+    for k in range(1, kmax + 1):
+        for c in combinations(range(n), k):
+            yield c
+
+
+def minimise_all(wd, pool, items, kmax=3):
+    """items: list of (history, clause).  Shrinks every history to a small one
+    that still violates its clause *on the real code* (every candidate is
+    executed and judged by TLC; all candidates of one round go into one TLC
+    batch).  Round 1: all sub-histories with <= kmax requests (clock steps
+    kept); then clock steps are removed as long as the clause still fails."""
+    cur = [h for h, _ in items]
+    # round 1: fewest requests
+    cands, owner = [], []
+    for gi, (h, clause) in enumerate(items):
+        opi = [i for i, s in enumerate(h["steps"]) if s["k"] != "adv"]
+        for sub in _ops_subsets(len(opi), min(kmax, len(opi) - 1)):
+            keep = {opi[j] for j in sub}
+            steps = retime([s for i, s in enumerate(h["steps"]) if s["k"] == "adv" or i in keep])
+            cands.append({"steps": steps})
+            owner.append(gi)
+    if cands:
+        res = run_all(cands, pool)
+        verdicts, _ = validate(wd, [r["events"] for r in res])
+        for c, gi, v in zip(cands, owner, verdicts):
+            if items[gi][1] in v["bad"]:
+                nops = lambda hh: sum(1 for s in hh["steps"] if s["k"] != "adv")
+                if nops(c) < nops(cur[gi]):
+                    cur[gi] = c
+    # rounds 2..: drop clock steps (and trailing requests) one at a time, then jointly
+    for _ in range(4):
+        cands, owner, which = [], [], []
+        for gi, h in enumerate(cur):
+            for i, s in enumerate(h["steps"]):
+                steps = retime(h["steps"][:i] + h["steps"][i + 1 :])
+                if steps:
+                    cands.append({"steps": steps})
+                    owner.append(gi)
+                    which.append(i)
         if not cands:
             break
         res = run_all(cands, pool)
         verdicts, _ = validate(wd, [r["events"] for r in res])
-        nxt = None
-        for c, v in zip(cands, verdicts):
-            if clause in v["bad"] and (nxt is None or len(c["steps"]) < len(nxt["steps"])):
-                nxt = c
-        if nxt is None:
+        removable = {}
+        for c, gi, i, v in zip(cands, owner, which, verdicts):
+            if items[gi][1] in v["bad"]:
+                removable.setdefault(gi, []).append(i)
+        if not removable:
             break
-        cur = nxt
+        joint, jowner = [], []
+        for gi, idx in removable.items():
+            steps = retime([s for i, s in enumerate(cur[gi]["steps"]) if i not in idx])
+            if steps:
+                joint.append({"steps": steps})
+                jowner.append(gi)
+        res = run_all(joint, pool)
+        verdicts, _ = validate(wd, [r["events"] for r in res]) if joint else ([], None)
+        done = set()
+        for c, gi, v in zip(joint, jowner, verdicts):
+            if items[gi][1] in v["bad"]:
+                cur[gi] = c
+                done.add(gi)
+        for gi, idx in removable.items():
+            if gi not in done:  # remove just one step this round
+                i = idx[-1]
+                cur[gi] = {"steps": retime(cur[gi]["steps"][:i] + cur[gi]["steps"][i + 1 :])}
     return cur
 
 
@@ -239,8 +310,8 @@ def compare_with_model(history, events):
     ops = [e for e in events if e["k"] in ("reg", "upd", "put", "del")]
     steps = [s for s in history["steps"] if s["k"] != "adv"]
     for s, e in zip(steps, ops):
-        if s.get("cls") in (None, 0):
-            continue
+        if s.get("cls") in (None, 0) or s.get("var") == "ltnoval":
+            continue  # lt without a value: the statement does not say which error class
         if s["cls"] != e["cls"]:
             return "%s:%s answered %d.%02d, model predicts class %d" % (s["k"], s.get("var"), e["code"] >> 5, e["code"] & 31, s["cls"])
         if s["k"] == "reg" and s["cls"] == 2 and s["loc"] != e["loc"]:
@@ -277,21 +348,40 @@ def work(rep, args):
             for clause in sorted(verdicts[0]["bad"]):
                 rep.violation(clause, "%s|%s" % (clause, shape(h)), "replayed history violates %s at event %d" % (clause, verdicts[0]["firstBad"]),
                               {"history": h, "events": res[0]["events"]})
-            rep.coverage.update({"states": 0, "transitions": 0, "traces_validated_against_impl": 1, "samples": [h]})
+            # keep the evidence of the last full run; a replay only adds to it
+            try:
+                prev = json.load(open(os.path.join(runner.EVIDENCE_DIR, "C20.json")))
+                rep.coverage.update(prev.get("coverage", {}))
+                rep.assumptions += prev.get("assumptions", [])
+                rep.tier = prev.get("tier", rep.tier)
+            except (OSError, ValueError):
+                rep.coverage.update({"states": 0, "transitions": 0, "traces_validated_against_impl": 1, "samples": [h]})
+            rep.coverage["last_replay"] = {"file": args.replay, "clauses_false": sorted(verdicts[0]["bad"])}
             return
 
         # 1. exhaustive: the design (validate before mutate) satisfies every clause
-        mc_ops = 3 if quick else 4
+        mc_ops = 3
         write_cfg(wd, "RD_mc.cfg", MC, mc_ops, "{}", MC_TAIL)
-        mc = tlc.run(wd, "RD_run.tla", "RD_mc.cfg", timeout=300 if quick else 2400)
+        mc = tlc.run(wd, "RD_run.tla", "RD_mc.cfg", timeout=600)
         tlc.need_ok_run(mc, "ResourceDirectory model check")
+        mc4 = None
+        if not quick and not mc.violated:
+            write_cfg(wd, "RD_mc4.cfg", MC4, 4, "{}", MC_TAIL)
+            mc4 = tlc.run(wd, "RD_run.tla", "RD_mc4.cfg", timeout=2400)
+            tlc.need_ok_run(mc4, "ResourceDirectory model check, 4 requests")
+            _dbg("mc4 done: %s" % mc4.summary())
+            if mc4.violated:
+                raise MachineryError("ResourceDirectory model (4 requests) with Hyp = {} violates %s: the specification is inconsistent\n%s"
+                                     % (mc4.violated, mc4.out[-3000:]))
+        _dbg("mc done: %s" % mc.summary())
         if mc.violated:
             raise MachineryError("ResourceDirectory model with Hyp = {} violates %s: the specification is inconsistent\n%s"
                                  % (mc.violated, mc.out[-3000:]))
         # 2. exhaustive with the order hypotheses: candidate histories
-        write_cfg(wd, "RD_hyp.cfg", MC, 3, ALL_HYP, HYP_TAIL)
+        write_cfg(wd, "RD_hyp.cfg", MC, 2 if quick else 3, ALL_HYP, HYP_TAIL)
         hyp = tlc.run(wd, "RD_run.tla", "RD_hyp.cfg", timeout=300 if quick else 1200)
         tlc.need_ok_run(hyp, "ResourceDirectory model check with order hypotheses")
+        _dbg("hyp done: %s" % hyp.summary())
         cands = {}
         for v in tlc.printed_values(hyp, "BAD"):
             _, bad, blame, hist = v
@@ -305,12 +395,13 @@ def work(rep, args):
         if len(cand_hists) > max_cands:
             cand_hists = rng.sample(cand_hists, max_cands)
         # 3. behaviours of the model with larger constants
-        nsim = 500 if quick else 12000
+        nsim = 300 if quick else 12000
         sim_ops = 9
         write_cfg(wd, "RD_sim.cfg", SIM, sim_ops, "{}", SIM_TAIL)
         sim = tlc.run(wd, "RD_run.tla", "RD_sim.cfg", workers=1, timeout=600 if quick else 1800,
                       simulate="num=%d" % nsim, depth=sim_ops + SIM["maxtime"] + 2, seed=seed + 1)
         tlc.need_ok_run(sim, "ResourceDirectory simulation")
+        _dbg("sim done: %s" % sim.summary())
         if sim.violated:
             raise MachineryError("simulation of the Hyp = {} model violates %s" % sim.violated)
         sim_hists = []
@@ -324,9 +415,12 @@ def work(rep, args):
         if len(sim_hists) < nsim // 4:
             raise MachineryError("simulation produced only %d finished behaviours of %d" % (len(sim_hists), nsim))
         all_hists = cand_hists + sim_hists
+        _dbg("histories: %d candidates, %d simulated" % (len(cand_hists), len(sim_hists)))
         results = run_all(all_hists, pool)
         traces = [r["events"] for r in results]
+        _dbg("replayed; %d events" % sum(len(t) for t in traces))
         verdicts, _ = validate(wd, traces)
+        _dbg("validated; %d traces with violations" % sum(1 for v in verdicts if v["bad"]))
 
         # violations: group, shrink one representative per group, report
         groups = {}
@@ -337,24 +431,32 @@ def work(rep, args):
                 for e in ev[: v["firstBad"]]:
                     if e["k"] in ("reg", "upd", "put", "del"):
                         trig = "%s:%s" % (e["k"], e["vg"])
-                g = (clause, tuple(v["blame"]) if clause == "C20_FailedWriteChangesNothing" else (), trig)
-                groups.setdefault(g, []).append(i)
+                groups.setdefault((clause, trig), []).append(i)
         reproduced_cands = sum(1 for i in range(len(cand_hists)) if verdicts[i]["bad"])
-        for g in sorted(groups):
+        order = sorted(groups, key=lambda g: (-len(groups[g]), g))
+        max_groups = 10 if quick else 40
+        if len(order) > max_groups:
+            rep.notes.append("%d further groups of failing traces not shrunk: %s" % (len(order) - max_groups, order[max_groups:]))
+            order = order[:max_groups]
+        items = []
+        for g in order:
+            idxs = sorted(groups[g], key=lambda i: (len(all_hists[i]["steps"]), i))
+            items.append((all_hists[idxs[0]], g[0]))
+        smalls = minimise_all(wd, pool, items) if items else []
+        finals = run_all(smalls, pool)
+        fverd, _ = validate(wd, [r["events"] for r in finals]) if smalls else ([], None)
+        _dbg("minimised %d groups" % len(items))
+        for g, small, r1, v1 in zip(order, smalls, finals, fverd):
             clause = g[0]
-            idxs = sorted(groups[g], key=lambda i: len(all_hists[i]["steps"]))
-            small = minimise(wd, pool, all_hists[idxs[0]], clause)
-            r1 = run_all([small], pool)[0]
-            v1, _ = validate(wd, [r1["events"]])
-            if clause not in v1[0]["bad"]:
+            if clause not in v1["bad"]:
                 raise MachineryError("minimised history no longer violates %s" % clause)
             ops = [e for e in r1["events"] if e["k"] not in ("lkep", "lkres")]
             detail = (
                 "clause %s false at event %d of a recorded execution; %d of %d explored histories fail in this group "
-                "(blamed failed writes: %s; last request before the failure: %s).\nminimal history (t in 15 s quanta): %s\n"
+                "(last request before the failure: %s; failed writes blamed: %s).\nminimal history (t in 15 s quanta): %s\n"
                 "responses: %s"
                 % (
-                    clause, v1[0]["firstBad"], len(idxs), len(all_hists), list(g[1]) or "-", g[2],
+                    clause, v1["firstBad"], len(groups[g]), len(all_hists), g[1], v1["blame"] or "-",
                     "; ".join(
                         ("adv->t=%d" % s["t"]) if s["k"] == "adv" else
                         "%s(%s)" % (s["k"], ",".join("%s=%s" % (k, s[k]) for k in ("ep", "d", "loc", "lt", "base", "x", "links", "var") if s.get(k)))
@@ -364,7 +466,7 @@ def work(rep, args):
                 )
             )
             rep.violation(clause, "%s|%s" % (clause, shape(small)), detail,
-                          {"history": small, "events": r1["events"], "meta": r1["meta"], "group": [g[0], list(g[1]), g[2]]})
+                          {"history": small, "events": r1["events"], "meta": r1["meta"], "group": list(g)})
 
         # spec -> code: model-predicted responses (only meaningful on executions without violation)
         ndrift = 0
@@ -401,11 +503,11 @@ def work(rep, args):
                     prev = (e["n"], e["t"])
         rep.coverage.update(
             {
-                "states": mc.distinct,
-                "transitions": mc.generated,
-                "depth": mc.depth,
-                "mc_constants": dict(MC, maxops=mc_ops),
-                "mc_wall_s": round(mc.wall, 1),
+                "states": mc.distinct + (mc4.distinct if mc4 else 0),
+                "transitions": mc.generated + (mc4.generated if mc4 else 0),
+                "depth": max(mc.depth, mc4.depth if mc4 else 0),
+                "mc_runs": [dict(constants=dict(MC, maxops=mc_ops), states=mc.distinct, transitions=mc.generated, wall_s=round(mc.wall, 1))]
+                + ([dict(constants=dict(MC4, maxops=4), states=mc4.distinct, transitions=mc4.generated, wall_s=round(mc4.wall, 1))] if mc4 else []),
                 "hypothesis_states": hyp.distinct,
                 "hypothesis_candidates": len(cand_hists),
                 "hypothesis_candidates_reproduced": reproduced_cands,
@@ -434,7 +536,7 @@ def work(rep, args):
             "one quantum = 15 s; lt in {60, 75, 120 s, absent}; only whole quanta are visited, including each deadline and the quantum before it",
             "distinct registrations sharing a location is read as: at the same time (a freed location may be reused)",
             "plain lookups only (no filters, no pagination); lookup payloads stay below one block",
-            "exhaustive model check uses the small constants in mc_constants; larger behaviours by simulation",
+            "exhaustive model check uses the small constants in mc_runs; larger behaviours by simulation",
         ]
 
 
